@@ -268,11 +268,16 @@ def rule_block(R):
             if nm == "size":
                 # what counts is what flows into the returned sum
                 val = arm_value(b, tgt) if tgt is not None else None
+                scanned = used
                 used = set()
                 if val is not None:
                     for x in walk(val):
                         if x[0] == "field" and x[1][0] == "downcast" and x[1][2] == v:
                             used.add(x[2])
+                    # an explicit accumulation loop: the list it walks is not part of the value term (the iterator is
+                    # loop state) -- fall back to what the arm's statements and calls touch
+                    if used != want[v] and any(b.calls[x_].is_("core::iter::Iterator::next") for x_ in arm if x_ in b.calls):
+                        used = scanned
             R.ob("block/%s/%s" % (nm, v), used == want[v],
                  "Properties::%s in representation %s accounts for exactly the fields %s (uses %s): the declared property "
                  "length equals the bytes emitted" % (nm, v, sorted(want[v]), sorted(used)), where=b.span)
@@ -292,13 +297,33 @@ def rule_block(R):
     for v in ("Slice", "WithCorrelation"):
         val = arm_value(size, zs["edges"][v]) if zs["edges"].get(v) is not None else None
         okv, why = val is not None, ""
-        for sm in (summands(val) if val is not None else []):
+        alts_ = []
+        for alt_ in (phi_alts(val) if val is not None else []):
+            alts_ += summands(alt_)
+        # an explicit accumulation loop in the arm (`for p in list { total += p.size() }`): path values stop at the loop
+        # head, so the loop body is read directly -- it must call Property::size on the item and must not count
+        tgt_ = zs["edges"].get(v)
+        arm_ = (size.reach([tgt_]) - size.reach([t_ for k_, t_ in zs["edges"].items() if k_ != v])) if tgt_ is not None else set()
+        acalls = [size.calls[x_] for x_ in arm_ if x_ in size.calls]
+        if any(c_.is_("core::iter::Iterator::next") for c_ in acalls):
+            if any(is_size_call(size.call_term(c_.bb)) for c_ in acalls) and not any(c_.is_("Iterator::count", "count", "len") for c_ in acalls):
+                alts_ = [a_ for a_ in alts_ if not (peel(a_)[0] == "const")]
+            else:
+                alts_.append(("unknown", "loop without Property::size"))
+        for sm in alts_:
             if is_size_call(sm):
                 continue
+            if peel(sm)[0] == "const" and peel(sm)[2] == 0:
+                continue       # the accumulator's start value
             if is_call(sm, "Iterator::sum", "sum") and sm[3]:
                 maps = [x for x in walk(sm[3][0]) if isinstance(x, tuple) and is_call(x, "Iterator::map", "map") and len(x[3]) == 2]
                 good = False
                 for mp in maps:
+                    fa = peel(mp[3][1])
+                    # `.map(Property::size)`: the function item itself
+                    if fa[0] == "const" and len(fa) > 4 and isinstance(fa[4], str) and fa[4].startswith("fn:") \
+                            and fa[4].endswith("::size") and "Propert" in fa[4]:
+                        good = True
                     for d in _closure_defs(mp[3][1]):
                         cb = f.bodies.get(d)
                         if cb is not None and is_size_call(cb.local_term(0)):
@@ -395,6 +420,33 @@ def shift_form(f, x):
     x = peel(x)
     vs = valueset.evaluate(f, x)
     return vs
+
+
+def _suboptions_by_contribution(R, f, so, root, table_bad):
+    """the reading by single contributions (`value |= BIT` under a guard): names the bit that is wrong"""
+    inits = [so.rvalue_term(s["rv"]) for bb, j, s in so.assigns() if s["dst"]["l"] == root and not s["dst"]["proj"]
+             and not ("bin" in s["rv"] and s["rv"]["bin"] == "BitOr")]
+    oki = len(inits) == 1 and valueset.evaluate(f, inits[0]) == {0, 1, 2} and any(x[0] == "field" and x[2] == "maximum_qos" for x in walk(inits[0]))
+    R.ob("bits/suboptions/qos", oki, "subscription options bits 1-0 = maximum QoS (initial value %s)" % (show(inits[0]) if inits else None), where=so.span)
+    got = []
+    for (bb, x, span) in contributions(f, so, lambda l: l == root):
+        got.append((frozenset(valueset.evaluate(f, x) or []), " & ".join("%s=%s" % (g[0][-40:], g[1]) for g in guards_of(so, bb)), x))
+    want = [({1 << 2}, "no_local=True", "no-local: bit 2"), ({1 << 3}, "retain_as_published=True", "retain-as-published: bit 3"),
+            ({0, 1 << 4, 2 << 4}, "", "retain handling: bits 5-4")]
+    used = set()
+    for (vals, needle, desc) in want:
+        hit = None
+        for i, (vs, g, x) in enumerate(got):
+            if i not in used and vs == frozenset(vals) and needle in g:
+                hit = i
+                break
+        if hit is not None:
+            used.add(hit)
+        R.ob("bits/suboptions/%s" % desc.split(":")[0], hit is not None,
+             "subscription options [MQTT 5 3.8.3.1] — %s (found %s)" % (desc, [(sorted(g[0]), g[1]) for g in got]), where=so.span)
+    R.ob("bits/suboptions/no-extra", len(used) == len(got), "no other contribution to the subscription options byte", where=so.span)
+    okrh = any(vs == frozenset({0, 16, 32}) and any(y[0] == "field" and y[2] == "retain_behavior" for y in walk(x)) for (vs, g, x) in got)
+    R.ob("bits/suboptions/retain-handling-source", okrh, "retain handling bits come from retain_behavior", where=so.span)
 
 
 def rule_bits(R):
@@ -526,29 +578,30 @@ def rule_bits(R):
     root = so.root_local(u8c[0].args[1])
     if root is None:
         raise AnchorLost("SubscriptionOptions:value-local")
-    inits = [so.rvalue_term(s["rv"]) for bb, j, s in so.assigns() if s["dst"]["l"] == root and not s["dst"]["proj"]
-             and not ("bin" in s["rv"] and s["rv"]["bin"] == "BitOr")]
-    oki = len(inits) == 1 and valueset.evaluate(f, inits[0]) == {0, 1, 2} and any(x[0] == "field" and x[2] == "maximum_qos" for x in walk(inits[0]))
-    R.ob("bits/suboptions/qos", oki, "subscription options bits 1-0 = maximum QoS (initial value %s)" % (show(inits[0]) if inits else None), where=so.span)
-    got = []
-    for (bb, x, span) in contributions(f, so, lambda l: l == root):
-        got.append((frozenset(valueset.evaluate(f, x) or []), " & ".join("%s=%s" % (g[0][-40:], g[1]) for g in guards_of(so, bb)), x))
-    want = [({1 << 2}, "no_local=True", "no-local: bit 2"), ({1 << 3}, "retain_as_published=True", "retain-as-published: bit 3"),
-            ({0, 1 << 4, 2 << 4}, "", "retain handling: bits 5-4")]
-    used = set()
-    for (vals, needle, desc) in want:
-        hit = None
-        for i, (vs, g, x) in enumerate(got):
-            if i not in used and vs == frozenset(vals) and needle in g:
-                hit = i
-                break
-        if hit is not None:
-            used.add(hit)
-        R.ob("bits/suboptions/%s" % desc.split(":")[0], hit is not None,
-             "subscription options [MQTT 5 3.8.3.1] — %s (found %s)" % (desc, [(sorted(g[0]), g[1]) for g in got]), where=so.span)
-    R.ob("bits/suboptions/no-extra", len(used) == len(got), "no other contribution to the subscription options byte", where=so.span)
-    okrh = any(vs == frozenset({0, 16, 32}) and any(y[0] == "field" and y[2] == "retain_behavior" for y in walk(x)) for (vs, g, x) in got)
-    R.ob("bits/suboptions/retain-handling-source", okrh, "retain handling bits come from retain_behavior", where=so.span)
+    # truth table first: for every combination of the four option fields the byte handed to serialize_u8 is
+    # qos | no_local << 2 | retain_as_published << 3 | retain_handling << 4  [MQTT 5 3.8.3.1] -- one reading for `|=` under
+    # an `if`, `u8::from(flag) << n`, and a helper that packs the byte
+    SO = "types::SubscriptionOptions"
+    table_ok, table_bad, rows_ = True, None, 0
+    for q_ in (0, 1, 2):
+        for nl_ in (0, 1):
+            for rap_ in (0, 1):
+                for rh_ in (0, 1, 2):
+                    env_ = {(SO, "maximum_qos"): {q_}, (SO, "no_local"): {nl_}, (SO, "retain_as_published"): {rap_}, (SO, "retain_behavior"): {rh_}}
+                    vs_ = valueset.evaluate_fn(f, so, env_, at=(u8c[0].bb, root))
+                    rows_ += 1
+                    want_ = q_ | (nl_ << 2) | (rap_ << 3) | (rh_ << 4)
+                    if vs_ != {want_}:
+                        table_ok = False
+                        table_bad = table_bad or (q_, nl_, rap_, rh_, sorted(vs_) if vs_ else vs_, want_)
+    if table_ok:
+        for key_, msg_ in (("qos", "subscription options bits 1-0 = maximum QoS"), ("no-local", "no-local: bit 2"),
+                           ("retain-as-published", "retain-as-published: bit 3"), ("retain handling", "retain handling: bits 5-4"),
+                           ("no-extra", "no other contribution to the subscription options byte"),
+                           ("retain-handling-source", "retain handling bits come from retain_behavior")):
+            R.ob("bits/suboptions/%s" % key_, True, "subscription options [MQTT 5 3.8.3.1] — %s (truth table over %d combinations)" % (msg_, rows_), where=so.span)
+    else:
+        _suboptions_by_contribution(R, f, so, root, table_bad)
 
     # PUBLISH flags
     pf = [b for b in f.bodies.values() if b.fn_name == "fixed_header_flags" and b.self_ty and b.self_ty.startswith("packets::PublishHeader")]
